@@ -18,12 +18,29 @@ fn mk(cs: &mut Cs, marker: &mut u32) -> dr::Instruction {
     }
 }
 
+thread_local! {
+    /// sparse mode: most sections empty (so that "only this one section is populated" occurs)
+    static SPARSE: std::cell::Cell<bool> = const { std::cell::Cell::new(false) };
+}
+
 fn vecn(cs: &mut Cs, marker: &mut u32) -> Vec<dr::Instruction> {
+    if SPARSE.with(|c| c.get()) && cs.below(8) != 0 {
+        return vec![];
+    }
     let n = cs.below(4);
     (0..n).map(|_| mk(cs, marker)).collect()
 }
 
 pub fn gen_module(cs: &mut Cs) -> dr::Module {
+    SPARSE.with(|c| c.set(false));
+    let sparse = cs.below(3) == 0;
+    SPARSE.with(|c| c.set(sparse));
+    let m = gen_module_inner(cs);
+    SPARSE.with(|c| c.set(false));
+    m
+}
+
+fn gen_module_inner(cs: &mut Cs) -> dr::Module {
     let mut m = dr::Module::new();
     let mut marker = 1000;
     if cs.bool() {
@@ -44,7 +61,9 @@ pub fn gen_module(cs: &mut Cs) -> dr::Module {
     m.debug_module_processed = vecn(cs, &mut marker);
     m.annotations = vecn(cs, &mut marker);
     m.types_global_values = vecn(cs, &mut marker);
-    let nf = cs.below(4);
+    let sparse = SPARSE.with(|c| c.get());
+    SPARSE.with(|c| c.set(false));
+    let nf = if sparse { cs.below(2) } else { cs.below(4) };
     for _ in 0..nf {
         let mut f = dr::Function::new();
         if cs.below(4) != 0 {
